@@ -158,6 +158,11 @@ func (s *segmentMetadata) getIndex(vecIdx VectorIndex, txtIdx TextIndex, metaIdx
 		if _, err := readerFrom.ReadFrom(combinedReader); err != nil {
 			return nil, fmt.Errorf("failed to deserialize segment: %w", err)
 		}
+		// Read the last component to its end as well: the gzip checksum and length
+		// are only verified at EOF, and a file whose tail is missing must not be loaded.
+		if _, err := io.Copy(io.Discard, combinedReader); err != nil {
+			return nil, fmt.Errorf("failed to verify segment: %w", err)
+		}
 	} else {
 		return nil, fmt.Errorf("index does not implement io.ReaderFrom")
 	}
